@@ -62,6 +62,8 @@ thread_local! {
     static LIVE: RefCell<BTreeSet<u64>> = const { RefCell::new(BTreeSet::new()) };
     static SERIAL: Cell<u64> = const { Cell::new(0) };
     static DOUBLE_DROP: Cell<u64> = const { Cell::new(0) };
+    /// 0 = disarmed; n = the n-th destructor of a tracked value from now panics.
+    static DROP_COUNTDOWN: Cell<u64> = const { Cell::new(0) };
 }
 
 fn cb(kind: Cb) {
@@ -167,7 +169,102 @@ impl Drop for V {
         if !ok {
             let _ = DOUBLE_DROP.try_with(|d| d.set(d.get() + 1));
         }
+        let fire = DROP_COUNTDOWN
+            .try_with(|c| {
+                let n = c.get();
+                if n == 0 {
+                    false
+                } else {
+                    c.set(n - 1);
+                    n == 1
+                }
+            })
+            .unwrap_or(false);
+        if fire && !std::thread::panicking() {
+            let _ = FIRED.try_with(|f| f.set(true));
+            panic!("injected panic in destructor");
+        }
     }
+}
+
+/// Fault kind "a destructor panics": the same operation on a `Vec2<V, V>` and on a plain
+/// `Vec<(V, V)>` (the property's reference), with the n-th destructor call panicking. Afterwards the
+/// container must hold what the plain list holds, every value it holds must still be alive, and
+/// nothing may be dropped twice when the container itself goes away. A second scenario does the
+/// same for `SmallMap::clear` (entries + hash index).
+fn destructor_faults(model: &[(i64, u32)], rng: &mut Rng, o: &mut Outcome, step: usize) -> Res {
+    let total = model.len();
+    let which = rng.below(4);
+    let nth = 1 + rng.below(2 * total as u64 + 1);
+    let l = rng.usize(total + 1);
+    let md = 2 + rng.below(3) as i64;
+    let cnt = [3usize, 15, 17, 24][rng.usize(4)];
+    let armed = |f: &mut dyn FnMut()| -> bool {
+        FIRED.with(|f| f.set(false));
+        DROP_COUNTDOWN.with(|c| c.set(nth));
+        let r = catch_unwind(AssertUnwindSafe(f));
+        DROP_COUNTDOWN.with(|c| c.set(0));
+        if r.is_err() {
+            let _ = take_last_panic();
+        }
+        r.is_err()
+    };
+    let live = |serial: u64| LIVE.with(|s| s.borrow().contains(&serial));
+    DOUBLE_DROP.with(|d| d.set(0));
+    if which == 3 {
+        let mut m: SmallMap<K, V> = SmallMap::new();
+        for id in 0..cnt {
+            m.insert(key(2, id as u32), V::new(id as i64));
+        }
+        let panicked = armed(&mut || m.clear());
+        if panicked {
+            o.bump("fault.panic_in_destructor", 1);
+        }
+        let held: Vec<(u32, u64)> = m.iter().map(|(k, v)| (k.id, v.serial)).collect();
+        if let Some((id, _)) = held.iter().find(|(_, sr)| !live(*sr)) {
+            return Err(format!("step {step}: after a panic in the {nth}-th destructor inside SmallMap::clear of {cnt} entries the map still holds key {id}, whose value has been dropped"));
+        }
+        if m.len() != held.len() {
+            return Err(format!("step {step}: after a panic in a destructor inside SmallMap::clear len() = {} but iteration yields {}", m.len(), held.len()));
+        }
+        for id in 0..cnt as u32 {
+            let by_key = m.get(&key(2, id)).is_some();
+            if by_key != held.iter().any(|(h, _)| *h == id) {
+                return Err(format!("step {step}: after a panic in a destructor inside SmallMap::clear of {cnt} entries lookup of key {id} says {by_key}, iteration says the opposite"));
+            }
+        }
+        drop(m);
+    } else {
+        let mut w: Vec2<V, V> = Vec2::new();
+        let mut p: Vec<(V, V)> = Vec::new();
+        for (a, b) in model {
+            w.push(V::new(*a), V::new(*b as i64));
+            p.push((V::new(*a), V::new(*b as i64)));
+        }
+        let (name, pw, pp) = match which {
+            0 => ("clear", armed(&mut || w.clear()), armed(&mut || p.clear())),
+            1 => ("truncate", armed(&mut || w.truncate(l)), armed(&mut || p.truncate(l))),
+            _ => ("retain", armed(&mut || w.retain(|_, y| y.val % md != 0)), armed(&mut || p.retain(|(_, y)| y.val % md != 0))),
+        };
+        if pw || pp {
+            o.bump("fault.panic_in_destructor", 1);
+        }
+        if let Some((i, _)) = w.iter().enumerate().find(|(_, (x, y))| !live(x.serial) || !live(y.serial)) {
+            return Err(format!("step {step}: after a panic in the {nth}-th destructor inside Vec2::{name} (of {total} entries) the container still holds entry {i}, which has been dropped"));
+        }
+        let wv: Vec<(i64, i64)> = w.iter().map(|(x, y)| (x.val, y.val)).collect();
+        let pv: Vec<(i64, i64)> = p.iter().map(|(x, y)| (x.val, y.val)).collect();
+        if wv != pv {
+            return Err(format!("step {step}: after a panic in the {nth}-th destructor inside {name} (of {total} entries) Vec2 holds {wv:?}, a plain Vec holds {pv:?}"));
+        }
+        drop(w);
+        drop(p);
+    }
+    let dd = DOUBLE_DROP.with(|d| d.replace(0));
+    if dd > 0 {
+        return Err(format!("step {step}: after a panic in a destructor (scenario {which}, {nth}-th call) {dd} value(s) dropped twice"));
+    }
+    Ok(())
 }
 
 fn hash_of(mode: u64, id: u32) -> u32 {
@@ -1378,12 +1475,14 @@ fn run_other(kind: &str, mode: u64, seed: u64, n: usize, o: &mut Outcome) -> Res
                         // Whatever happened, the tracked values of `z` are not part of the rest of the history.
                         DOUBLE_DROP.with(|d| d.set(0));
                     }
-                    _ => {
-                        if rng.chance(1, 8) {
+                    _ => match rng.below(8) {
+                        0 => {
                             v2.clear();
                             model.clear();
                         }
-                    }
+                        1..=4 => destructor_faults(&model, &mut rng, o, step)?,
+                        _ => {}
+                    },
                 }
                 let actual: Vec<(i64, u32)> = v2.iter().map(|(x, y)| (x.val, *y)).collect();
                 if actual != model || v2.len() != model.len() || v2.is_empty() != model.is_empty() {
@@ -1499,7 +1598,7 @@ impl World for C11 {
     fn describe(&self) -> Describe {
         Describe {
             level: "exploration",
-            rule: "three kinds of run: (a) exhaustive = for base SmallMaps of 15, 16, 17 and 18 entries (around the 16-entry index threshold), hash modes {all-equal, sequential} and every 2-operation prefix, ALL operation sequences of length <= 2 (quick) or <= 3 (thorough) over an 20-letter alphabet (insert/remove/or_insert_with on present and absent keys, remove by index, pop, retain, sort, reverse, drop-index, clear, extend) - complete enumeration of histories up to length 4 resp. 5; (b) random SmallMap histories of up to 220 operations over <= 48 keys with adversarial hashes, through the plain and the pre-hashed API, with a panic injected into Hash/Eq/Ord/closure callbacks at the n-th call inside ~1 in 9 operations; (c) histories over SmallSet, OrderedMap/Set, SortedMap/Set/Vec, UnorderedMap/Set and Vec2 (with panics in retain/sort_by closures). After every step every lookup by key, by index and by position for every key of the universe is compared with a Vec model; non-trivial = history with >= 1 removal/sort/retain on an indexed map or an injected panic; distinct = digest of the operation list",
+            rule: "three kinds of run: (a) exhaustive = for base SmallMaps of 15, 16, 17 and 18 entries (around the 16-entry index threshold), hash modes {all-equal, sequential} and every 2-operation prefix, ALL operation sequences of length <= 2 (quick) or <= 3 (thorough) over an 20-letter alphabet (insert/remove/or_insert_with on present and absent keys, remove by index, pop, retain, sort, reverse, drop-index, clear, extend) - complete enumeration of histories up to length 4 resp. 5; (b) random SmallMap histories of up to 220 operations over <= 48 keys with adversarial hashes, through the plain and the pre-hashed API, with a panic injected into Hash/Eq/Ord/closure callbacks at the n-th call inside ~1 in 9 operations; (c) histories over SmallSet, OrderedMap/Set, SortedMap/Set/Vec, UnorderedMap/Set and Vec2 (with panics in retain/sort_by closures, and with the n-th destructor call panicking inside clear / truncate / retain of a Vec2 and inside SmallMap::clear, compared with the same operation on a plain Vec of pairs). After every step every lookup by key, by index and by position for every key of the universe is compared with a Vec model; non-trivial = history with >= 1 removal/sort/retain on an indexed map or an injected panic; distinct = digest of the operation list",
             sim_time_unit: "container operations executed (each followed by a full comparison with the model)",
             real_components: vec!["starlark_map::SmallMap / SmallSet / VecMap / Vec2 / OrderedMap / OrderedSet / SortedMap / SortedSet / SortedVec / UnorderedMap / UnorderedSet", "hashbrown index inside SmallMap"],
             stub_components: vec!["key type with simulator-chosen hash and panicking Hash/Eq/Ord", "tracked value type detecting double drops"],
